@@ -321,15 +321,15 @@ func checkTransitions(c *Ctx, pkg, label string) {
 	}
 	// compare with the documented table
 	want := map[string]bool{
-		"MineWS: ready->mining [guard index[ready]]":                 true,
-		"StopWS: mining->ready [guard index[mining]]":                true,
+		"MineWS: ready->mining [guard index[ready]]":                   true,
+		"StopWS: mining->ready [guard index[mining]]":                  true,
 		"spacePlotter: registered->plotting [guard index[registered]]": true,
-		"spacePlotter: ready->mining [guard index[ready]]":           true,
-		"spacePlotter: plotting->registered":                         true,
-		"spacePlotter: plotting->mining":                             true,
-		"spacePlotter: plotting->ready":                              true,
-		"DeleteWS: ws.state->(removed)":                              true,
-		"addWorkSpaceToIndex: (new)->ws.state":                       true,
+		"spacePlotter: ready->mining [guard index[ready]]":             true,
+		"spacePlotter: plotting->registered":                           true,
+		"spacePlotter: plotting->mining":                               true,
+		"spacePlotter: plotting->ready":                                true,
+		"DeleteWS: ws.state->(removed)":                                true,
+		"addWorkSpaceToIndex: (new)->ws.state":                         true,
 	}
 	got := map[string]transition{}
 	for _, t := range found {
